@@ -2,6 +2,7 @@ mod bddgen;
 mod common;
 mod ringstream;
 mod rng;
+mod sddstream;
 mod tblstream;
 mod wmcstream;
 
@@ -49,6 +50,7 @@ fn main() {
                 let tbl = [0usize, 4, 4, 8, 16][rng.below(5) as usize];
                 vec![bddgen::bdd_line(&prog, cache, tbl)]
             }
+            "sdd" => vec![sddstream::sdd_line(&mut rng, maxvars, maxops)],
             "ring" => ringstream::ring_lines(&mut rng, idx),
             "tbl" => vec![tblstream::tbl_line(&mut rng, maxops)],
             "lru" => vec![tblstream::lru_line(&mut rng, maxops)],
